@@ -38,7 +38,7 @@ def lineSum (line : Bytes) : Nat := (Utf8.runes line).foldl (· + ·) 0 + 13
 /-- `(-checksum) & 0xff` -/
 def negMod256 (sum : Nat) : Nat := (256 - sum % 256) % 256
 
-def promptLine (sum : Nat) : Bytes := sb "F> " ++ hex02 (negMod256 sum) ++ [13]
+def promptLine (sum : Nat) : Bytes := [70, 62, 32] ++ hex02 (negMod256 sum) ++ [13]
 
 structure PropFields where
   code : UInt8
@@ -65,6 +65,9 @@ def parseProposal (line : Bytes) : Option PropFields :=
         else some { code := code, msgType := p0, mid := parts.getD 1 [],
                     size := (atoi (parts.getD 2 [])).1, csize := (atoi (parts.getD 3 [])).1 }
   else none
+
+/-- "FS " as literal bytes (kept literal so that the kernel can evaluate examples) -/
+def fsPrefix : Bytes := [70, 83, 32]
 
 def ansAccept : UInt8 := 43
 def ansReject : UInt8 := 45
@@ -94,7 +97,7 @@ def parseAnswersAux (limit : Nat) (n : Nat) : Nat → Bytes → Nat → List (UI
         else none
 
 def parseProposalAnswer (limit : Nat) (reply : Bytes) (n : Nat) : Option (List (UInt8 × Int)) :=
-  let str := if (sb "FS ").isPrefixOf reply then reply.drop 3 else reply
+  let str := if fsPrefix.isPrefixOf reply then reply.drop 3 else reply
   parseAnswersAux limit n (str.length + 1) str 0 (List.replicate n (0, 0))
 
 /-- split into chunks of at most `m` bytes (m ≥ 1) -/
